@@ -273,6 +273,17 @@ def fisLenBHand (_k : Nat) : Nat := 2
 def fisJacCHand (_k : Nat) : Nat := 1
 def fisJacBHand (_k : Nat) : Nat := 2
 def fisSigmaHand (_k : Nat) : Nat := 1
+def fisMaskHand (_k : Nat) : Nat := 1
+def fitMaskHand (_k : Nat) : Nat := 1
+
+/-- what a pixel of the island image can hold -/
+inductive PixVal | finite | nan | posInf | negInf
+  deriving DecidableEq, Repr
+
+/-- which pixels a selection predicate keeps: kind 1 = `np.isfinite(data)`, kind 2 = `~np.isnan(data)`
+    (keeps ±inf); any other kind keeps nothing -/
+def keeps (kind : Nat) (v : PixVal) : Bool :=
+  if kind = 1 then v == .finite else if kind = 2 then v != .nan else false
 
 /-! ### `covar_errors`: the stderr-assignment loop
 
